@@ -128,6 +128,45 @@ func ctxEPs() []ctxEP {
 				a, err := p.ParseFromModelTokens(toks)
 				return treeDigest(a), a != nil, err
 			}},
+		// the same pair on a parser the holder configured: the options hold for both entry points alike
+		{"strict:Parser.ParseContextFromModelTokens",
+			func(ctx context.Context, tk *tokenizer.Tokenizer, p *parser.Parser, sql string) (string, bool, error) {
+				toks, err := tk.Tokenize([]byte(sql))
+				if err != nil {
+					return "", false, err
+				}
+				p.ApplyOptions(parser.WithStrictMode())
+				a, err := p.ParseContextFromModelTokens(ctx, toks)
+				return treeDigest(a), a != nil, err
+			},
+			func(tk *tokenizer.Tokenizer, p *parser.Parser, sql string) (string, bool, error) {
+				toks, err := tk.Tokenize([]byte(sql))
+				if err != nil {
+					return "", false, err
+				}
+				p.ApplyOptions(parser.WithStrictMode())
+				a, err := p.ParseFromModelTokens(toks)
+				return treeDigest(a), a != nil, err
+			}},
+		{"mysql:Parser.ParseContextFromModelTokens",
+			func(ctx context.Context, tk *tokenizer.Tokenizer, p *parser.Parser, sql string) (string, bool, error) {
+				toks, err := tk.Tokenize([]byte(sql))
+				if err != nil {
+					return "", false, err
+				}
+				p.ApplyOptions(parser.WithDialect("mysql"))
+				a, err := p.ParseContextFromModelTokens(ctx, toks)
+				return treeDigest(a), a != nil, err
+			},
+			func(tk *tokenizer.Tokenizer, p *parser.Parser, sql string) (string, bool, error) {
+				toks, err := tk.Tokenize([]byte(sql))
+				if err != nil {
+					return "", false, err
+				}
+				p.ApplyOptions(parser.WithDialect("mysql"))
+				a, err := p.ParseFromModelTokens(toks)
+				return treeDigest(a), a != nil, err
+			}},
 	}
 }
 
